@@ -20,9 +20,14 @@ CS_RND = T(
 CS_GEN = T([dict(cfg="GEN_Coinswap.cfg", num=10, depth=13, seeds=8)],
            [dict(cfg="GEN_Coinswap.cfg", num=50, depth=16, seeds=14)])
 CS_SCN = [dict(file="scenarios/coinswap_F1.ndjson", cfg=CS_CFG_A + ",epilogue=0"),
-          dict(file="scenarios/coinswap_zero_reserve.ndjson", cfg=CS_CFG_A + ",epilogue=0")]
-CS_MC = T([dict(cfg="MC_Coinswap.cfg", timeout=900), dict(cfg="MC_Coinswap2.cfg", timeout=900)],
-          [dict(cfg="MC_Coinswap_big.cfg", timeout=3000), dict(cfg="MC_Coinswap2_big.cfg", timeout=3000)])
+          dict(file="scenarios/coinswap_zero_reserve.ndjson", cfg=CS_CFG_A + ",epilogue=0"),
+          dict(file="scenarios/coinswap_edges.ndjson", cfg=CS_CFG_A + ",epilogue=0")]
+CS_MC = T([dict(cfg="MC_Coinswap.cfg", timeout=900, heap="4g"), dict(cfg="MC_Coinswap2.cfg", timeout=900, heap="4g")],
+          [dict(cfg="MC_Coinswap_big.cfg", timeout=3000, heap="4g"),
+           dict(cfg="MC_Coinswap2_big.cfg", timeout=3000, heap="4g")])
+
+# histories recorded (VERIF_RECORD_DIR) for the cross-module checks C11 / C12
+RECORD = [dict(binary="coinswap", n=T(3, 12), len=30, cfg=CS_CFG_A)]
 
 CS_ASSUME = ["TLC 1.8, SANY, CommunityModules Json", "Go toolchain, cosmos-sdk x/bank, x/auth",
              "harness projection functions (balances, supplies, pool registry, params read from the stores)",
